@@ -57,6 +57,7 @@ def judge(program, leaves, obs):
 
 def job(j):
     program, menu, tier = j["program"], j["menu"], j["tier"]
+    skw = j.get("solver") or {}
     res = {"ok": True, "family": j["family"], "viol": [], "runs": 0, "calls": 0, "states": set(), "outcomes": set(), "points": 0}
     try:
         leaves, stats, prims, built, solver = hs.admitted_set(program)
@@ -74,11 +75,13 @@ def job(j):
             kind = ("raised" if obs[i]["kind"] == "raise" else "failed-early" if obs[i]["kind"] == "false" else
                     "outside-admitted-set" if "outside" in why else "repeated-or-excluded")
             sig = {"dir": "protocol", "call": ev[0], "what": kind, "optional_tasks": has_opt, "variable_duration": has_var}
+            if skw:
+                sig["solver"] = "+".join(sorted(skw))
             k = json.dumps(sig, sort_keys=True)
             e = sigs.setdefault(k, [0, None, sig])
             e[0] += 1
             cand = {"program": program, "history": hist, "choices": None if choices == "lazy" else choices,
-                    "steer": "lazy" if choices == "lazy" else (choices is not None), "step": i, "why": why,
+                    "steer": "lazy" if choices == "lazy" else (choices is not None), "step": i, "why": why, "solver": skw,
                     "observations": [dict(o, timing=list(o["timing"]) if o.get("timing") else None) for o in obs], "expect": "protocol",
                     "n_timings": n}
             if e[1] is None or len(json.dumps(cand)) < len(json.dumps(e[1])):
@@ -90,7 +93,7 @@ def job(j):
         bound = None if n <= 4 else (1 if tier == "quick" else 2)
 
         def runner(choices):
-            obs, env, _s, _b = hs.run_history(program, hist, choices=choices, leaves=leaves, steer=True)
+            obs, env, _s, _b = hs.run_history(program, hist, choices=choices, leaves=leaves, steer=True, solver_kw=skw)
             env.obs = obs
             return env
 
@@ -98,7 +101,7 @@ def job(j):
         if part != "all":
             roots = [[part]] if isinstance(part, int) else []
         # the unsteered run (whatever z3 returns)
-        obs, env, _s, _b = hs.run_history(program, hist)
+        obs, env, _s, _b = hs.run_history(program, hist, solver_kw=skw)
         res["runs"] += 1
         res["calls"] += len(hist)
         bad, p = judge(program, leaves, obs)
@@ -135,7 +138,7 @@ def job(j):
                     if not h:
                         continue
                     # canonical model order (first consistent admitted leaf): the same in every process
-                    obs, env, _s, _b = hs.run_history(program, h, leaves=leaves, steer="lazy")
+                    obs, env, _s, _b = hs.run_history(program, h, leaves=leaves, steer="lazy", solver_kw=skw)
                     res["runs"] += 1
                     res["calls"] += len(h)
                     res["outcomes"].add(repr([o.get("timing") for o in obs]))
@@ -243,6 +246,9 @@ def main(tier):
     for i, (lab, program, menu) in enumerate(programs(tier)):
         if tier == "quick":
             js.append({"program": program, "menu": menu, "family": lab, "tier": tier, "want_sample": i % 3 == 0})
+            if lab in ("1F", "F+Fo", "1V"):
+                # the debug path feeds assertions through assert_and_track
+                js.append({"program": program, "menu": menu, "family": lab + "/debug", "tier": tier, "solver": {"debug": True}})
         else:
             # one job per first model choice (a root choice that does not exist is an empty job) + one for the call sequences
             js.append({"program": program, "menu": menu, "family": lab, "tier": tier, "want_sample": i % 3 == 0, "part": "seq"})
